@@ -198,7 +198,9 @@ class TrackerHandle(Contract):
 
     def setup(self, run, case):
         me, vals = sym_tracker(run)
-        field = SOpaque("fields", term=z3.Int("fields"))
+        # the simulation state may or may not be a plain ScalarField (symbolic: both are explored) - the tracker's `source` applies in either case
+        is_sf = run.input_bool("state_is_a_ScalarField")
+        field = SOpaque("fields", term=z3.Int("fields"), attrs={"isinstance": lambda run2, n_, is_sf=is_sf: is_sf if n_.endswith("ScalarField") else False})
         t = run.input_real("t") if case["t"] == "symbolic" else 0
         self.ctx = (run, me, vals, field, t)
         return dict(self=me, field=field, t=t)
@@ -283,7 +285,9 @@ class LengthScaleHandle(Contract):
         vals = dict(method=sym_setting(run, "method"), source=sym_setting(run, "source"))
         me.fields.update(vals)
         me.fields.update(times=times, length_scales=ls, verbose=case["verbose"], _logger=SOpaque("logger"), filename=None)
-        field = SOpaque("fields", term=z3.Int("fields"))
+        # the simulation state may or may not be a plain ScalarField (symbolic: both are explored) - the tracker's `source` applies in either case
+        is_sf = run.input_bool("state_is_a_ScalarField")
+        field = SOpaque("fields", term=z3.Int("fields"), attrs={"isinstance": lambda run2, n_, is_sf=is_sf: is_sf if n_.endswith("ScalarField") else False})
         t = run.input_real("t")
         self.ctx = (run, me, vals, field, t, times.elems, ls.elems, to_z3(times.length))
         return dict(self=me, field=field, t=t)
